@@ -186,4 +186,35 @@ def defsP : ParamList → List (Loc × Name)
   | .cons (.mk _ d) ps => defsL d ++ defsP ps
 end
 
+/-! ## the implementation's answer replayed on the program: remove exactly the definitions it reports as removed -/
+
+mutual
+def dropE (ds : List Loc) : Expr → Expr
+  | .defn loc di ps body => if ds.contains loc then dummy else .defn loc di (dropP ds ps) (dropL ds body)
+  | .attr loc obj n ai => .attr loc (dropE ds obj) n ai
+  | .bin loc op l r => .bin loc op (dropE ds l) (dropE ds r)
+  | .un loc op e => .un loc op (dropE ds e)
+  | .call loc ci obj pos var kw kwvar => .call loc ci (dropE ds obj) (dropL ds pos) (dropL ds var) (dropK ds kw) (dropL ds kwvar)
+  | .lambda loc li ps body => .lambda loc li (dropP ds ps) (dropL ds body)
+  | .coll k es => .coll k (dropL ds es)
+  | .record loc attrs => .record loc (dropL ds attrs)
+  | .tasc e => .tasc (dropE ds e)
+  | .classDef loc n pub rs ms => .classDef loc n pub (dropL ds rs) (dropL ds ms)
+  | .patchDef loc base ms => .patchDef loc (dropE ds base) (dropL ds ms)
+  | .redef loc a b => .redef loc (dropE ds a) (dropL ds b)
+  | .blk k es => .blk k (dropL ds es)
+  | .lit loc => .lit loc
+  | .ident loc n ai => .ident loc n ai
+  | .import => .import
+def dropL (ds : List Loc) : ExprList → ExprList
+  | .nil => .nil
+  | .cons e es => .cons (dropE ds e) (dropL ds es)
+def dropK (ds : List Loc) : KwList → KwList
+  | .nil => .nil
+  | .cons k e rest => .cons k (dropE ds e) (dropK ds rest)
+def dropP (ds : List Loc) : ParamList → ParamList
+  | .nil => .nil
+  | .cons (.mk pi d) ps => .cons (.mk pi (dropL ds d)) (dropP ds ps)
+end
+
 end ErgVerif.C12
